@@ -178,6 +178,7 @@ server_prop!(C12, "C12", sprops::c12_profile, sprops::c12_check, 2000, 30_000,
 #[derive(Clone, Debug, Serialize, Deserialize)]
 pub enum Sc04 {
     Server(SScenario),
+    Chain(super::chprops::ChScenario),
 }
 pub struct C04;
 impl Prop for C04 {
@@ -188,7 +189,9 @@ impl Prop for C04 {
     fn rule(&self) -> String {
         "Single channel: server config (limit none/1/2/3, both paths) + up to 70 generated ops with cancels placed before handler start, mid-handler, after completion but before the response is written, after it is written, for unknown and finished ids; several concurrent requests; sink blocked for stretches \
          (finding F6 region steered around and counted). Oracle: after the poll in which the channel read Cancel(id) for a tracked id the handler's inner future is never polled or started again, it is observed dropped, no Response(id) is written (reference model of read-and-unanswered ids), \
-         in_flight_requests() agrees with the model at every quiescence, and no other handler is aborted without cause. Non-trivial = a cancel hit a handler that had been polled and not completed; distinct = distinct scenario JSON."
+         in_flight_requests() agrees with the model at every quiescence, and no other handler is aborted without cause. \
+         Cascade: chains of 1-3 real client->server hops (shipped in-memory channel, serde+JSON, serde+bincode over byte pipes) whose handlers call the next hop with their context; the head call is abandoned at a generated point; at quiescence every hop's unanswered request is followed by a Cancel and no handler of the abandoned call is left alive. \
+         Non-trivial = a cancel hit a handler that had been polled and not completed, or (cascade) depth >= 2 with an unfinished leaf handler; distinct = distinct scenario JSON."
             .into()
     }
     fn work(&self, tier: Tier) -> Work {
@@ -198,11 +201,83 @@ impl Prop for C04 {
         }
     }
     fn strategy(&self, _tier: Tier) -> BoxedStrategy<Sc04> {
-        sstrat(&sprops::c04_profile()).prop_map(Sc04::Server).boxed()
+        prop_oneof![
+            3 => sstrat(&sprops::c04_profile()).prop_map(Sc04::Server),
+            2 => super::chprops::strategy(&super::chprops::c04c_profile()).prop_map(Sc04::Chain),
+        ]
+        .boxed()
     }
     fn run_case(&self, sc: &Sc04) -> CaseResult {
         match sc {
             Sc04::Server(s) => sprops::c04_check(s),
+            Sc04::Chain(c) => super::chprops::c04c_check(c),
         }
+    }
+}
+
+#[derive(Clone, Debug, Serialize, Deserialize)]
+pub enum Sc07 {
+    Chain(super::chprops::ChScenario),
+    NoDeadlineJson { transit_us: u64, id: u64, body: u64 },
+}
+pub struct C07;
+impl Prop for C07 {
+    type Scenario = Sc07;
+    fn id(&self) -> &'static str {
+        "C07"
+    }
+    fn rule(&self) -> String {
+        "Scenario = chain of 1-3 real client->server hops over the shipped in-memory channel, serde+JSON or serde+bincode on byte pipes; each handler calls the next hop with the context it was given; calls with remaining time from already-expired/0 to hours; \
+         virtual clock advances between a request's serialisation (start_send, t_s) and its deserialisation (the receiving poll_next, t_r) produce transit delays of 0..seconds per hop; one run in four installs an OpenTelemetry layer. A second scenario kind feeds a hand-built JSON frame whose context omits `deadline`. \
+         Oracle (exact under virtual time): the request is written with the caller's deadline; handler-observed D' satisfies D <= D' <= D + (t_r - t_s) for unexpired D, D' = t_r for an expired one, D' = D in memory; never beyond the original deadline plus accumulated transit; no decode error; \
+         with the OTel layer context::current().deadline inside the handler equals the context argument; omitted deadline => decode time + 10 s. Non-trivial = >=2 hops with non-zero transit delay, or an expired deadline, or an omitted deadline; distinct = distinct scenario JSON."
+            .into()
+    }
+    fn work(&self, tier: Tier) -> Work {
+        match tier {
+            Tier::Quick => Work { cases_per_worker: 1500, workers: 8 },
+            Tier::Thorough => Work { cases_per_worker: 20_000, workers: 16 },
+        }
+    }
+    fn strategy(&self, _tier: Tier) -> BoxedStrategy<Sc07> {
+        prop_oneof![
+            12 => super::chprops::strategy(&super::chprops::c07_profile()).prop_map(Sc07::Chain),
+            1 => (prop_oneof![Just(0u64), 0u64..5_000_000], prop_oneof![Just(0u64), Just(u64::MAX), any::<u64>()], any::<u64>())
+                .prop_map(|(transit_us, id, body)| Sc07::NoDeadlineJson { transit_us, id, body }),
+        ]
+        .boxed()
+    }
+    fn run_case(&self, sc: &Sc07) -> CaseResult {
+        match sc {
+            Sc07::Chain(c) => super::chprops::c07_check(c),
+            Sc07::NoDeadlineJson { transit_us, id, body } => super::chprops::c07_no_deadline(*transit_us, *id, *body),
+        }
+    }
+}
+
+pub struct C18;
+impl Prop for C18 {
+    type Scenario = super::chprops::ChScenario;
+    fn id(&self) -> &'static str {
+        "C18"
+    }
+    fn rule(&self) -> String {
+        "Scenario = chain of 1-3 real hops (in-memory, JSON, bincode) with 1-8 concurrent head calls carrying pairwise distinct caller-supplied trace ids and both sampling decisions, abandonments at generated points (cancels travel down the chain), generated scheduling; \
+         no subscriber in three runs of four, an OpenTelemetry layer in the fourth (hop-to-hop equalities only). Oracle: per call and hop the Request's trace id and sampling decision = what that hop's handler observes = what the next hop's Request carries; \
+         caller, wire and handler span ids along a call are pairwise different; a Cancel's trace context equals its Request's field for field; without a subscriber the transmitted trace id/sampling are the caller's and distinct calls keep distinct trace ids. \
+         Non-trivial = >=3 concurrent calls with >=1 cancel on the wire, or depth >= 2; distinct = distinct scenario JSON."
+            .into()
+    }
+    fn work(&self, tier: Tier) -> Work {
+        match tier {
+            Tier::Quick => Work { cases_per_worker: 1500, workers: 8 },
+            Tier::Thorough => Work { cases_per_worker: 20_000, workers: 16 },
+        }
+    }
+    fn strategy(&self, _tier: Tier) -> BoxedStrategy<Self::Scenario> {
+        super::chprops::strategy(&super::chprops::c18_profile())
+    }
+    fn run_case(&self, sc: &Self::Scenario) -> CaseResult {
+        super::chprops::c18_check(sc)
     }
 }
